@@ -147,6 +147,17 @@ theorem cleanKvs_insert {kvs : List (EKey × ETree)} (h : CleanKvs kvs) {k : EKe
     · exact cleanKvs_cons.mpr ⟨⟨hk, hv⟩, h.2⟩
     · exact cleanKvs_cons.mpr ⟨h.1, ih h.2⟩
 
+theorem cleanKvs_erase {kvs : List (EKey × ETree)} (h : CleanKvs kvs) (k : EKey) : CleanKvs (erase k kvs) := by
+  induction kvs with
+  | nil => simpa [erase] using h
+  | cons kv rest ih =>
+    obtain ⟨k', v'⟩ := kv
+    rw [cleanKvs_cons] at h
+    simp only [erase]
+    split
+    · exact h.2
+    · exact cleanKvs_cons.mpr ⟨h.1, ih h.2⟩
+
 theorem cleanList_getD {xs : List ETree} (h : CleanList xs) (i : Nat) : ErrFree (xs.getD i .null) := by
   rw [List.getD_eq_getElem?_getD]
   cases hi : xs[i]? with
@@ -625,6 +636,15 @@ theorem withOwner_errFree (ownerRef src view : ETree) (ho : ErrFree ownerRef) (h
     · intro x hx; simp at hx; subst hx; exact ho
   · cases h
 
+theorem dropOwnerRefs_errFree (view : ETree) (hv : ErrFree view) : ErrFree (dropOwnerRefs view) := by
+  unfold dropOwnerRefs
+  split
+  · rename_i md hmd
+    have hmdc := (errFree_obj _).mp (cleanKvs_lookup (cleanKvs_kvsOf hv) hmd)
+    exact (errFree_obj _).mpr (cleanKvs_insert (cleanKvs_kvsOf hv) (by simp)
+      ((errFree_obj _).mpr (cleanKvs_erase hmdc _)))
+  · exact hv
+
 theorem sendPrepared_sat {eval : Oracle} (env : Env) (o : Out) (view : ETree) (hv : ErrFree view) :
     Sat eval (sendPrepared env o view) (fun _ => True) := by
   unfold sendPrepared
@@ -678,7 +698,7 @@ theorem updatePath_sat {eval : Oracle} (f : RF) (env : Env) (loc : Site → Site
           · rename_i v hv
             exact Sat.pure (withOwner_errFree _ _ _ henv.ownerRef hl (convert_errFree _ he) v hv)
           · exact Sat.fail _
-        · exact Sat.pure (convert_errFree _ he)
+        · exact Sat.pure (dropOwnerRefs_errFree _ (convert_errFree _ he))
       · intro body hbody
         apply Sat.bind (sendPrepared_sat env .patch body hbody)
         intro _ _
